@@ -60,6 +60,15 @@ def bindAll (missing : Err) (srcNs : Dict Val) (cur : Nat) : List (String × Str
     | none => (s, some (.raise missing))
     | some v => bindAll missing srcNs cur rest (s.setattr cur b v)
 
+/-- `from m import a as b, c as d`: `b = getattr(m, a)`, then `d = getattr(m, c)` – every attribute is
+read when its turn comes (so inside `m` itself, `from m import x as y, y as z` binds `z` to `x`'s value) -/
+def bindFrom (src : Nat) (cur : Nat) : List (String × String) → S → S × Option Fail
+  | [], s => (s, .none)
+  | (a, b) :: rest, s =>
+    match (s.ns src).get a with
+    | none => (s, some (.raise .importError))
+    | some v => bindFrom src cur rest (s.setattr cur b v)
+
 def stmt (imp : Imp) (cur : Nat) (st : Simple) (s : S) : S × Option Fail :=
   let withMod (m : String) (k : Nat → S → S × Option Fail) : S × Option Fail :=
     match imp m s with
@@ -68,11 +77,14 @@ def stmt (imp : Imp) (cur : Nat) (st : Simple) (s : S) : S × Option Fail :=
   match st with
   | .imp m => withMod m fun id s => (s.setattr cur m (.mod id), .none)
   | .impAs m n => withMod m fun id s => (s.setattr cur n (.mod id), .none)
-  | .from_ m items => withMod m fun id s => bindAll .importError (s.ns id) cur items s
+  | .from_ m items => withMod m fun id s => bindFrom id cur items s
   | .star m => withMod m fun id s =>
       match starNames (s.ns id) with
       | .error e => (s, some (.raise e))
       | .ok names => bindAll .attributeError (s.ns id) cur (names.map fun k => (k, k)) s
+  -- a relative import in a module that is not part of a package (3.4: SystemError "Parent module '' not
+  -- loaded, cannot perform relative import"); nothing is looked up or loaded
+  | .rel _ _ => (s, some (.raise .systemError))
   | .bind x v => (s.setattr cur x (.int v), .none)
   | .setAll l => (s.setattr cur "__all__" (.names l), .none)
   | .mutate n a v =>
@@ -121,21 +133,38 @@ def findPath : List (Dict Src) → Nat → String → Option (String × Src)
     | some src => some (s!"d{i}/{name}.py", src)
     | none => findPath ds (i + 1) name
 
+/-- `p` of a dotted module name `p.q…` -/
+def dottedHead (name : String) : Option String :=
+  let l := name.toList
+  if l.contains '.' then some (String.ofList (l.takeWhile (· != '.'))) else .none
+
+/-- import of an undotted name; `nested` = the import function the module's code uses (`none`: out of fuel) -/
+def importPlain (env : Env) (nested : Option Imp) (name : String) (s : S) : S × Except Fail Nat :=
+  match s.sysModules.get name with
+  | some id => (s.emit (.hit id name), .ok id)
+  | none =>
+    match nested with
+    | .none => (s, .error .fuel)
+    | some imp =>
+      match env.goMods.get name with                       -- built-in finder first
+      | some impl => load imp name (freshNs name .none impl.globals impl.methods) impl.body true s
+      | none =>
+        match findPath env.dirs 0 name with
+        | none => (s, .error (.raise .importError))
+        | some (_, .bad) => (s, .error (.raise .syntaxError))
+        | some (file, .code body) => load imp name (freshNs name (some file) [] []) (some body) true s
+
+/-- the modules of this fragment are plain files or built-ins, never packages: after the parent `p`
+of `p.q` has been imported, the import fails with ImportError ("'p' is not a package") -/
+def notPackage : Option String → S × Except Fail Nat → S × Except Fail Nat
+  | some _, (s, .ok _) => (s, .error (.raise .importError))
+  | _, r => r
+
+/-- `import p.q` imports the parent `p` first (its code runs, it stays in `sys.modules`) -/
 def importModule (env : Env) : Nat → Imp
-  | fuel, name, s =>
-    match s.sysModules.get name with
-    | some id => (s.emit (.hit id name), .ok id)
-    | none =>
-      match fuel with
-      | 0 => (s, .error .fuel)
-      | fuel + 1 =>
-        match env.goMods.get name with                       -- built-in finder first
-        | some impl => load (importModule env fuel) name (freshNs name .none impl.globals impl.methods) impl.body true s
-        | none =>
-          match findPath env.dirs 0 name with
-          | none => (s, .error (.raise .importError))
-          | some (_, .bad) => (s, .error (.raise .syntaxError))
-          | some (file, .code body) => load (importModule env fuel) name (freshNs name (some file) [] []) (some body) true s
+  | 0, name, s => notPackage (dottedHead name) (importPlain env .none ((dottedHead name).getD name) s)
+  | fuel + 1, name, s =>
+    notPackage (dottedHead name) (importPlain env (some (importModule env fuel)) ((dottedHead name).getD name) s)
 
 def runScripts (env : Env) (fuel : Nat) : List Body → Nat → S → S × List (Except Fail Nat)
   | [], _, s => (s, [])
@@ -145,6 +174,28 @@ def runScripts (env : Env) (fuel : Nat) : List Body → Nat → S → S × List 
     (s, r :: rs)
 
 end Spec
+
+/-! ### Known finding C19-K01: dotted module names -/
+
+/-- the module an import statement names -/
+def Simple.target : Simple → Option String
+  | .imp m => some m | .impAs m _ => some m | .from_ m _ => some m | .star m => some m | _ => .none
+
+def Stmt.simple : Stmt → Simple
+  | .plain s => s | .tried s => s
+
+def undottedBody (b : Body) : Bool :=
+  b.all fun st => match st.simple.target with | some m => (Spec.dottedHead m).isNone | none => true
+
+/-- no import statement of any module body, Go module code or script names a dotted module -/
+def undotted (env : Env) (scripts : List Body) : Bool :=
+  scripts.all undottedBody &&
+  env.goMods.all (fun p => match p.2.body with | some b => undottedBody b | none => true) &&
+  env.dirs.all (fun d => d.all fun p => match p.2 with | .code b => undottedBody b | .bad => true)
+
+/-- **C19-K01**: some import statement of the case names `p.q`.  gpython has no packages: it looks
+for the file `p/q.py` and never imports `p`; Python imports `p` first. -/
+def kfDotted (env : Env) (scripts : List Body) : Bool := !undotted env scripts
 
 /-! ### Property-level predicates over traces and namespaces -/
 
@@ -227,12 +278,14 @@ def renderRes : Except Fail Nat → String
   | .error (.raise e) => "E:" ++ e.py
   | .error .fuel => "FUEL"
 
+def renderStep (acc : List Nat × List String) (e : Ev) : List Nat × List String :=
+  match renderEv acc.1 e with
+  | (seen, some s) => (seen, acc.2 ++ [s])
+  | (seen, .none) => (seen, acc.2)
+
 /-- the whole observable of a case: the log, the outcome of every script, the final store -/
 def renderRun (trace : List Ev) (heap : List ModObj) (store : Dict Nat) (rs : List (Except Fail Nat)) : String :=
-  let (seen, parts) := trace.foldl (fun (acc : List Nat × List String) e =>
-    match renderEv acc.1 e with
-    | (seen, some s) => (seen, acc.2 ++ [s])
-    | (seen, .none) => (seen, acc.2)) ([], [])
+  let (seen, parts) := trace.foldl renderStep ([], [])
   let storeVals : Dict Val := store.map (fun p => (p.1, Val.mod p.2))
   let (_, st) := renderEntries (renderDeep heap store) seen storeVals
   ";".intercalate parts ++ ";R:" ++ ",".intercalate (rs.map renderRes) ++ ";S" ++ st
